@@ -690,6 +690,7 @@ def run(fx, crates=None, cfgname="A"):
                 obs.append(ob)
     # second Result layers: Continue payload of a `?` that is itself a Result (JoinHandle::join()??)
     obs.extend(_nested_layers(fx, crates, cfgname))
+    obs.extend(_collections_of_results(fx, crates, cfgname))
     return obs
 
 
@@ -779,6 +780,63 @@ def _int_status(fx, fn, dl):
     if not out:
         out.append(Classified("DISCARDED", "C status return never tested", ok=False))
     return out
+
+
+COLL_RESULT_RE = re.compile(r"^(alloc::vec::Vec|alloc::collections::[a-z_]+::[A-Za-z]+|alloc::boxed::Box<\[)<?(core::option::Option<)?core::result::Result<")
+
+
+def _collections_of_results(fx, crates, cfgname):
+    """A Vec (or other std collection) of Results that is produced and then dropped without any use: the errors in
+    it are lost (`handles.map(|h| h.join()..).collect::<Result<Vec<_>, _>>()?;` keeps the outer layer only)."""
+    obs = []
+    for path in sorted(fx.fns):
+        f = fx.fns[path]
+        if crates and f.crate not in crates:
+            continue
+        if not in_scope_fn(fx, f):
+            continue
+        du = defuse(f)
+        n = 0
+        for l, lc in enumerate(f.locals):
+            if l <= f.argc or not COLL_RESULT_RE.match(lc["ty"]):
+                continue
+            defs = [s_ for s_, whole in du.defs.get(l, []) if whole]
+            if not defs:
+                continue
+            # follow plain moves; any other use (iteration, indexing, being returned or passed on) counts as looked at
+            used = False
+            work, seen = [l], set()
+            while work and not used:
+                x = work.pop()
+                if x in seen:
+                    continue
+                seen.add(x)
+                if x == 0:
+                    used = True
+                for site, how in du.uses.get(x, []):
+                    nd = site.node
+                    if site.is_term:
+                        if nd["k"] == "drop":
+                            continue
+                        used = True
+                    elif how == "rv" and nd["rv"]["k"] == "use" and not nd["lhs"].get("p") and \
+                            not (op_place(nd["rv"]["op"]) or {}).get("p"):
+                        work.append(nd["lhs"]["l"])
+                    else:
+                        used = True
+            # only report at the origin of the value (a local that is itself a move target of another is skipped)
+            is_origin = any(site.is_term or site.node["rv"]["k"] != "use" or (op_place(site.node["rv"]["op"]) or {}).get("p")
+                            for site in defs)
+            if not is_origin:
+                continue
+            site = defs[0]
+            sp = site.node["span"]
+            obs.append(Ob("R-ERR", mkkey("R-ERR", f.path, "collection-of-results", n), used, "%s:%d" % (sp["file"], sp["line"]),
+                          f.path, "a %s is %s" % (lc["ty"].split("<")[0].split("::")[-1] + " of Results",
+                                                   "consumed" if used else "DISCARDED: dropped without being looked at (the errors in it are lost)"),
+                          None if used else dict(type=lc["ty"]), cfg=cfgname))
+            n += 1
+    return obs
 
 
 def _nested_layers(fx, crates, cfgname):
